@@ -526,3 +526,174 @@ def build():
              "start/stop are not decided; 'exactly balls_per_game balls per player' follows from T2 + L2 by induction "
              "(stated)")
     return C
+
+
+def game_stop_set(pid="C06g"):
+    """the game mode's own stopping queue event: the game does not reach `stopped` while one of its game modes is
+    still active - every active game mode, also one that is already stopping, is asked to stop and awaited"""
+    C = ContractSet(pid, "the game stops only after its game modes have stopped")
+    C.strings = False
+    NM = common.bound(2, 3)
+    C.cls("AsyncMode", fields={})
+    C.cls("ModeI", fields=dict(is_game_mode=Bool, active=Bool, stopping=Bool, name=Str))
+
+    def mode_stop(I, env, a, k):
+        emit(I, "mode.stop", mode=env["self"].ref, callback=k.get("callback", a[0] if a else NONE))
+        return I.read_field(env["self"].ref, "active")
+    C.ext("ModeI.stop", model=mode_stop, trusted_reason="Mode.stop (C02 / C07): registers the callback of a running mode - "
+                                                        "also of one that is already stopping - and returns")
+    C.cls("QueueI", fields=dict(waiter=Bool))
+
+    def q_wait(I, env, a, k):
+        if I.ctx.branch(I.truth(I.read_field(env["self"].ref, "waiter"))):
+            I.raise_("AssertionError", "Double lock")
+        I.write_field(env["self"].ref, "waiter", VBool(True))
+        emit(I, "queue.wait", q=env["self"].ref)
+        return NONE
+
+    def q_clear(I, env, a, k):
+        if I.ctx.branch(z3.Not(I.truth(I.read_field(env["self"].ref, "waiter")))):
+            I.raise_("AssertionError", "Not waiting")
+        I.write_field(env["self"].ref, "waiter", VBool(False))
+        emit(I, "queue.clear", q=env["self"].ref)
+        return NONE
+    C.ext("QueueI.wait", model=q_wait, trusted_reason="QueuedEvent typestate (C02)")
+    C.ext("QueueI.clear", model=q_clear, trusted_reason="QueuedEvent typestate (C02)")
+
+    def modes(I, name):
+        ms = [I.fresh(ObjS("ModeI"), "%s[mode%d]" % (name, i)) for i in range(I.ctx.fork(NM + 1))]
+        I.__dict__["c06_modes"] = ms
+        return I.new_dict(tuple(("mode%d" % i, m) for i, m in enumerate(ms)), name)
+
+    def stopping_modes(I, name):
+        """modes still awaited: 1..NM distinct modes"""
+        ms = [I.fresh(ObjS("ModeI"), "%s[%d]" % (name, i)) for i in range(1 + I.ctx.fork(NM))]
+        I.__dict__["c06_awaited"] = ms
+        return I.new_list(ms, name)
+    C.cls("Game", file=GAME, bases=["AsyncMode"], check_bases=False, fields=dict(
+        machine=ObjS("MachineController", modes=Init(modes)), _stopping_modes=Init(stopping_modes),
+        _stopping_queue=Opt(ObjS("QueueI"))))
+
+    def all_asked(I, queue):
+        ms = I.__dict__.get("c06_modes", [])
+        evs = events_named(I, "mode.stop")
+        this = I.frames[0].env["self"].ref
+        held = I.container(I.force(I.read_field(this, "_stopping_modes")).ref).items
+        held_refs = [I.force(h).ref for h in held]
+        cs = []
+        want_any = []
+        for m in ms:
+            g = z3.And(I.truth(I.read_field(m.ref, "is_game_mode", heap=I.old_heap)),
+                       I.truth(I.read_field(m.ref, "active", heap=I.old_heap)))
+            mine = [e for e in evs if e.args["mode"] is m.ref]
+            cb_ok = False
+            if len(mine) == 1:
+                cb = I.force(mine[0].args["callback"])
+                cb_ok = cb.tag == "fn" and cb.kind == "partial" and getattr(I.force(cb.fn), "name", None) == \
+                    "_game_mode_stopped" and I.force(cb.kwargs.get("mode", NONE)).tag == "obj" and \
+                    I.force(cb.kwargs["mode"]).ref is m.ref
+            cs.append(z3.If(g, z3.BoolVal(len(mine) == 1 and cb_ok and held_refs.count(m.ref) == 1),
+                            z3.BoolVal(len(mine) == 0 and m.ref not in held_refs)))
+            want_any.append(g)
+        qv = I.force(queue)
+        waits = [e for e in events_named(I, "queue.wait") if e.args["q"] is qv.ref]
+        anyone = z3.Or(want_any + [z3.BoolVal(False)])
+        sq = I.read_field(this, "_stopping_queue")
+        cs.append(z3.If(anyone, z3.And(z3.BoolVal(len(waits) == 1), I.eq(sq, qv) if I.force(sq).tag != "none" or
+                                       isinstance(sq, VUnion) else z3.BoolVal(False)),
+                        z3.BoolVal(len(waits) == 0)))
+        return VBool(z3.And(cs))
+    C.helpers["all_game_modes_asked"] = all_asked
+    C.trace_helpers = {"all_game_modes_asked", "n_clears"}
+    C.helpers["n_clears"] = lambda I: VInt(len(events_named(I, "queue.clear")))
+    C.fn("Game._stop_game_modes", params=dict(queue=ObjS("QueueI"), kwargs=Opaque("Kwargs")),
+         requires=[("the stopping event's queue is not held yet by the game", "not queue.waiter")],
+         loops={0: LoopSpec(invariant=[], unroll=True)},
+         ensures=[("GS1: every active game mode - also one that is ALREADY stopping - is asked to stop with a callback for "
+                   "that very mode and is awaited; the stopping queue event is held iff at least one is awaited",
+                   "all_game_modes_asked(queue)")],
+         modifies=["self._stopping_modes", "self._stopping_queue", "queue.waiter"], raises={}, skip_frame=True,
+         bounded="BOUNDED: at most %d modes" % NM)
+
+    def awaited_mode(I, name):
+        ms = I.__dict__.get("c06_awaited")
+        if ms is None:
+            I.force(I.read_field(I.frames[0].env["self"].ref, "_stopping_modes"))
+            ms = I.__dict__["c06_awaited"]
+        return ms[I.ctx.fork(len(ms))]
+    C.fn("Game._game_mode_stopped", params=dict(mode=Init(awaited_mode)),
+         requires=[("a stop is awaited: the queue is held", "self._stopping_queue is not None and "
+                                                            "self._stopping_queue.waiter")],
+         ensures=[("GS2: the stopping queue event is released exactly when the LAST awaited game mode has stopped",
+                   "mode not in self._stopping_modes and len(self._stopping_modes) == old(len(self._stopping_modes)) - 1 "
+                   "and n_clears() == (1 if len(self._stopping_modes) == 0 else 0)")],
+         modifies=["self._stopping_modes", "self._stopping_queue", "self._stopping_queue.waiter"], raises={},
+         skip_frame=True, bounded="BOUNDED: at most %d awaited modes" % NM)
+    return C
+
+
+BC = "mpf/core/ball_controller.py"
+TILT = "mpf/modes/tilt/code/tilt.py"
+
+
+def drain_set():
+    """what feeds the game's ball-end decisions from outside the game mode: the ball controller's ball_drain relay
+    (only balls nobody claimed count as drained) and the slam tilt (always recorded while a game runs)"""
+    C = ContractSet("C06d", "drain relay and slam tilt reach the game unaltered")
+    C.strings = False
+    C.cls("MpfController", fields={})
+    C.cls("EventManager", fields={})
+
+    def post(kind):
+        def m(I, env, a, k):
+            emit(I, "post", kind=kind, event=a[0] if a else k.get("event"), kwargs={x: v for x, v in k.items()
+                                                                                   if x not in ("event", "callback")})
+            return NONE
+        return m
+    C.ext("EventManager.post_relay", model=post("post_relay"), trusted_reason="event posting (C01)")
+    C.ext("EventManager.post", model=post("post"), trusted_reason="event posting (C01)")
+    C.cls("BallController", file=BC, bases=["MpfController"], fields=dict(
+        machine=ObjS("MachineController", events=ObjS("EventManager"))))
+
+    def drain_relayed(I, device, unclaimed):
+        evs = events_named(I, "post")
+        if len(evs) != 1 or evs[0].args["kind"] != "post_relay" or I.pyconst(I.force(evs[0].args["event"])) != "ball_drain":
+            return VBool(False)
+        kw = evs[0].args["kwargs"]
+        if sorted(kw) != ["balls", "device"]:
+            return VBool(False)
+        return VBool(z3.And(I.eq(kw["balls"], unclaimed), I.eq(kw["device"], device)))
+    C.helpers["drain_relayed"] = drain_relayed
+    C.fn("BallController._ball_drained_handler",
+         params=dict(new_balls=Int, unclaimed_balls=Int, device=Opaque("Device"), kwargs=Opaque("Kwargs")),
+         ensures=[("DR1: a ball entering a drain device counts as drained only if nobody claimed it: the ball_drain relay "
+                   "carries the UNCLAIMED balls (an expected transfer, e.g. outhole to trough, does not end a ball twice)",
+                   "drain_relayed(device, unclaimed_balls)")],
+         modifies=[], raises={})
+    C.cls("Mode", fields={})
+    C.cls("GameI", fields=dict(slam_tilted=Bool, tilted=Bool, ending=Bool))
+    C.cls("Tilt", file=TILT, bases=["Mode"], fields=dict(
+        machine=ObjS("MachineController", events=ObjS("EventManager"), game=Opt(ObjS("GameI")))))
+    C.ext("Tilt.tilt", model=lambda I, env, a, k: (emit(I, "tilt()"), NONE)[1],
+          trusted_reason="Tilt.tilt: ends the ball unless the game is already tilted or ending")
+    C.helpers["n_tilt_calls"] = lambda I: VInt(len(events_named(I, "tilt()")))
+    C.helpers["n_posts"] = lambda I: VInt(len(events_named(I, "post")))
+    C.trace_helpers = {"drain_relayed", "n_tilt_calls", "n_posts"}
+    C.fn("Tilt.slam_tilt", params=dict(kwargs=Opaque("Kwargs")),
+         ensures=[("ST1: a slam tilt during a game is ALWAYS recorded (game.slam_tilted) - also while the ball is already "
+                   "tilted or the game is ending - so that the game ends instead of going on with the next ball",
+                   "implies(self.machine.game is not None, self.machine.game.slam_tilted and n_tilt_calls() == 1)"),
+                  ("the slam_tilt event is posted once", "n_posts() == 1")],
+         modifies=["self.machine.game.slam_tilted"], raises={})
+    return C
+
+
+def build_extra():
+    # a ball (and so the game) only ends after every game mode that stops at ball end has stopped (C11's mode
+    # controller contracts), a stop request on a mode that is already stopping is still awaited (C02's Mode.stop)
+    from . import C11, C02
+    c02 = C02.build()
+    c02.pid = "C06s"
+    c02.replay_pid = "C02"
+    c02.only_verify = ["Mode.stop"]
+    return [game_stop_set(), C11.mode_controller_set("C06m"), c02, drain_set()]
